@@ -7,7 +7,8 @@ PROP = "C08"
 def run(tier, seed, t0):
     return _sess.run_session_check(
         PROP, tier, seed, t0,
-        families=[("connclose", 500, 8000), ("consumer", 100, 1500), ("close_slow", 6, 48), ("reply_then_close", 150, 2500), ("mixed", 150, 2000)],
+        families=[("connclose", 500, 8000), ("consumer", 100, 1500), ("close_slow", 6, 48), ("reply_then_close", 150, 2500),
+                  ("connclose_cross", 150, 2500), ("mixed", 150, 2000)],
         own_kinds=('connclose',),
         mc_jobs=[("MC_Conn_close_q.cfg", None, "quick"), ("MC_Conn_close.cfg", None, "thorough"),
                  ("MC_Conn_close_bug.cfg", "SealedShrinks", None)],
@@ -17,7 +18,9 @@ def run(tier, seed, t0):
              "empty and 255 bytes), followed by calls on every channel, publishes submitted after the close point, "
              "consumer drains and Connection::close; plus real-time sessions with a 1 s heartbeat where the server takes 1.3-3.4 s to "
              "answer CloseOk; plus slow callers: the close (server Close, or the CloseOk of a concurrent client close, or a "
-             "channel close) arrives in the same burst as the reply of a caller that has not yet picked its reply up. non-trivial = the session has a consumer or a call in flight at "
+             "channel close) arrives in the same burst as the reply of a caller that has not yet picked its reply up; "
+             "plus crossing closes (the client's Close has reached the server when the server sends its own Close, "
+             "followed - in the same burst, later or never - by the CloseOk for the client's). non-trivial = the session has a consumer or a call in flight at "
              "the close point; distinct = distinct step lists",
         nontrivial=lambda s: any(x.get("do") == "consume" or x.get("async") for x in s["steps"]),
         assumptions=_sess.COMMON_ASSUMPTIONS + [
